@@ -46,6 +46,22 @@ define double @f(double %x, double %y) {
   %g = fadd nnan ninf nsz arcp contract afn reassoc double %f, %y
   ret double %g
 }
+;;; ATOM inst/fastmath-all-but-one
+define double @f(double %x, double %y) {
+  %s0 = fadd ninf nsz arcp contract afn reassoc double %x, %y
+  %s1 = fadd nnan nsz arcp contract afn reassoc double %s0, %y
+  %s2 = fadd nnan ninf arcp contract afn reassoc double %s1, %y
+  %s3 = fadd nnan ninf nsz contract afn reassoc double %s2, %y
+  %s4 = fadd nnan ninf nsz arcp afn reassoc double %s3, %y
+  %s5 = fadd nnan ninf nsz arcp contract reassoc double %s4, %y
+  %s6 = fadd nnan ninf nsz arcp contract afn double %s5, %y
+  %n = fneg nnan ninf nsz arcp contract afn double %s6
+  %c = fcmp nnan ninf nsz arcp contract afn olt double %n, %y
+  %sel = select nnan ninf nsz arcp contract afn i1 %c, double %n, double %y
+  %call = call nnan ninf nsz arcp contract afn double @f(double %sel, double %y)
+  %five = fmul ninf nsz arcp contract afn double %call, %y
+  ret double %five
+}
 ;;; ATOM inst/bitwise
 define i32 @f(i32 %x, i32 %y) {
   %a = shl i32 %x, %y
